@@ -14,7 +14,14 @@ def run_one(m, unit):
         s = open(p).read()
         if m["find"] not in s:
             return (unit, m["name"], "STALE", "pattern not found")
-        s = s.replace(m["find"], m["replace"], 1)
+        if m.get("after"):
+            # several look-alike copies in one file: the edit goes to the first match behind the marker
+            if m["after"] not in s or m["find"] not in s[s.index(m["after"]):]:
+                return (unit, m["name"], "STALE", "marker/pattern not found")
+            k = s.index(m["after"])
+            s = s[:k] + s[k:].replace(m["find"], m["replace"], 1)
+        else:
+            s = s.replace(m["find"], m["replace"], 1)
         open(p, "w").write(s)
         env = dict(os.environ)
         if not m.get("bounded"):
